@@ -22,7 +22,7 @@ CONSTANTS Universe,      \* all document paths that may exist
           DevAnchorAsFragment,  \* a seeded change: the requested slug is used as URI fragment
           DevExistsNotIsFile    \* a seeded change: a directory with the document's name counts as a file
 
-Spellings == {"rel", "dot", "abs", "noext", "project", "label", "file", "path"}
+Spellings == {"rel", "dot", "abs", "noext", "project", "label", "file", "path", "rst"}     \* "rst": x.rst where only x.md exists (no such file)
 Projects == {P \in SUBSET Universe : P # {}}
 
 (* ------------------------------------------------------------------ paths ----------- *)
@@ -54,7 +54,7 @@ Links == [to : Universe, sp : Spellings, anchor : {0, 1, 2, 99}, text : {"explic
 Init == /\ proj \in Projects /\ src \in proj /\ link \in Links
         /\ (link.sp \in {"label", "file", "path"} => link.anchor = 0 /\ link.to = src)      \* (target irrelevant)
         /\ (link.anchor \in {1, 2} => link.anchor <= Headings[link.to])
-        /\ (link.sp = "noext" => link.anchor = 0)
+        /\ (link.sp \in {"noext", "rst"} => link.anchor = 0)
         /\ pc = "classify" /\ cls = <<>> /\ res = <<>>
 
 (* the components the link is written with *)
@@ -62,6 +62,7 @@ Written == CASE link.sp = "rel" -> RelPath(DirOf(src), link.to)
              [] link.sp = "dot" -> <<".">> \o RelPath(DirOf(src), link.to)
              [] link.sp = "abs" -> link.to
              [] link.sp = "noext" -> RelPath(DirOf(src), link.to)
+             [] link.sp = "rst" -> RelPath(DirOf(src), link.to)
              [] link.sp = "project" -> RelPath(DirOf(src), link.to)
              [] link.sp \in {"file", "path"} -> RelPath(DirOf(src), Append(FileDir, "f.txt"))
              [] OTHER -> <<>>
@@ -74,6 +75,7 @@ Classify ==
               [] link.sp = "path" -> <<"download">>
               [] link.sp = "file" -> <<"download">>                                  \* the file exists and is not a document
               [] link.sp = "noext" -> <<"any-doc", Located>>                          \* 'x' is not a file: left to the resolver
+              [] link.sp = "rst" -> <<"any-missing">>                                 \* a file of that name does not exist, and the suffix is part of the name
               [] Located \in proj -> <<"doc", Located>>                              \* potential_path.is_file() and path2doc
               [] link.sp = "project" -> <<"missing-at-render">>                      \* render_link_project warns at once
               [] OTHER -> <<"any-missing">>
@@ -117,7 +119,7 @@ Done == pc = "done"
 (* the target, from the project description and the link's meaning alone *)
 STarget == CASE link.sp \in {"file", "path"} -> <<"file">>
              [] link.sp = "label" -> IF LabelDoc \in proj THEN <<"label">> ELSE <<"missing">>
-             [] link.to \notin proj -> <<"missing">>
+             [] link.to \notin proj \/ link.sp = "rst" -> <<"missing">>
              [] link.anchor = 99 -> <<"doc-missing-anchor", link.to>>
              [] link.anchor = 0 -> <<"doc", link.to>>
              [] OTHER -> <<"heading", link.to, link.anchor>>
